@@ -144,6 +144,10 @@ pub trait Sc: Copy + 'static {
     fn f_eq(a: Self, b: Self) -> Fm;
     fn f_le(a: Self, b: Self) -> Fm;
     fn f_lt(a: Self, b: Self) -> Fm;
+    /// DAG node of a symbolic real (None for concrete scalars)
+    fn node_id(self) -> Option<u32> {
+        None
+    }
 }
 pub fn var<T: Sc>(name: &str) -> T {
     T::input(name)
@@ -206,6 +210,9 @@ pub struct Engine {
     pub notes: Vec<String>,
     /// lemma hypotheses usable by goals tagged with the same group: (name, formula)
     pub hyps: Vec<(String, Fm)>,
+    /// cut-with-abstraction groups: goals whose name starts with the group are emitted with these
+    /// term nodes replaced by fresh variables (in the goal, the hypotheses, Pre and the path condition)
+    pub absgroups: Vec<(String, Vec<u32>)>,
     // concrete replay
     pub inputs: HashMap<String, String>,
     pub drawn: Vec<(String, String)>,
@@ -236,6 +243,7 @@ impl Default for Engine {
             check_defined: false,
             notes: vec![],
             hyps: vec![],
+            absgroups: vec![],
             inputs: HashMap::new(),
             drawn: vec![],
             rng: 0x9E3779B97F4A7C15,
@@ -265,6 +273,7 @@ impl Engine {
         self.range_obl.clear();
         self.notes.clear();
         self.hyps.clear();
+        self.absgroups.clear();
         self.drawn.clear();
         self.check_defined = false;
         self.ite_mode = false;
@@ -346,6 +355,18 @@ pub fn goal(name: &str, f: Fm) {
 /// a proved lemma may be used as hypothesis by later goals whose name starts with `group`
 pub fn hyp(group: &str, f: Fm) {
     with(|e| e.hyps.push((group.to_string(), f)));
+}
+/// Goals named `group…` are decided with `terms` replaced by fresh variables (sound: validity for all
+/// values of the fresh variables implies validity for the particular subterms). Combine with `hyp`.
+pub fn abstract_terms<T: Sc>(group: &str, terms: &[T]) {
+    let ids: Vec<u32> = terms.iter().filter_map(|t| t.node_id()).collect();
+    with(|e| {
+        if let Some(g) = e.absgroups.iter_mut().find(|(g, _)| g == group) {
+            g.1.extend(ids);
+        } else {
+            e.absgroups.push((group.to_string(), ids));
+        }
+    });
 }
 pub fn note(s: &str) {
     with(|e| e.notes.push(s.to_string()));
